@@ -617,6 +617,79 @@ pub fn run_c08(ctx: &Ctx) -> i32 {
             }
         }
     });
+    // (g) whole VARIABLE-blocksize streams, which only the parser can produce: an emitted stream is
+    // re-written frame by frame (blocking bit set, start-sample numbers of 1..=7 coded bytes in
+    // place of the frame numbers, CRCs recomputed; mon_d::variable_blocking). Whatever
+    // parser::stream accepts must verify as the variable-blocksize stream it is, report the bits
+    // it writes (stream, every frame, every header) and re-serialise to the bytes it was parsed from;
+    // the same stream with ONE wrong start-sample number may parse, but must not verify.
+    let nvar = ctx.tier.pick(240, 8000);
+    let bs2 = Arc::clone(&bases);
+    run_cases(ctx, "varstream", nvar, &mut out, |idx, out| {
+        let mut rng = Rng::for_case(ctx.seed, "C08.varstream", idx);
+        type ByteErr<'a> = nom::error::Error<&'a [u8]>;
+        if bs2.is_empty() {
+            return;
+        }
+        let base = &bs2[rng.usize_below(bs2.len())];
+        let rep0 = refdec::decode_stream(&base.bytes);
+        if rep0.fatal().is_some() || rep0.frames.len() != base.frames.len() {
+            return;
+        }
+        let sizes: Vec<usize> = rep0.frames.iter().map(|f| f.header.block_size).collect();
+        let total: u64 = sizes.iter().map(|x| *x as u64).sum();
+        // offsets that push the start-sample numbers into every code length (the total-samples
+        // field of STREAMINFO is left alone: nothing relates the two in the format)
+        let offset = match idx % 8 {
+            0 => 0,
+            1 => 0x7F_u64.saturating_sub(total / 2),
+            2 => (1 << 11) - 1,
+            3 => (1 << 16) - 3,
+            4 => (1 << 21) - 2,
+            5 => (1 << 26) - 1,
+            6 => (1 << 31) - 5,
+            _ => (1u64 << 36) - 1 - total,
+        };
+        let broken = idx % 5 == 4 && base.frames.len() >= 2;
+        let bytes = crate::mon_d::variable_blocking(base, &sizes, if broken { 0 } else { offset }, broken.then(|| 1 + rng.usize_below(base.frames.len() - 1)));
+        let desc = json!({"varstream": base.desc, "frames": sizes.len(), "first_start_sample": offset, "one_wrong_start_sample": broken});
+        let rp = || rpj(ctx, "varstream", idx, desc.clone());
+        out.evaluations += 1;
+        let r = catch(|| flacenc::component::parser::stream::<ByteErr<'_>>(&bytes).ok().map(|(rest, s)| (rest.len(), s)));
+        match r {
+            Ok(Some((rest, s))) => {
+                out.count("variable_streams_accepted_by_the_parser");
+                out.distinct.insert(prng::hash_bytes(&bytes));
+                let ver = catch(|| s.verify());
+                match (&ver, broken) {
+                    (Err(p), _) => out.violation(format!("C08|varstream|verify-panic|{}", p.site()), p.short(), rp()),
+                    (Ok(Ok(())), true) => out.violation("C08|varstream|verifies-with-wrong-start-sample", "a variable-blocksize stream whose frame states a start sample that is not the sum of the preceding block sizes verifies".to_string(), rp()),
+                    (Ok(Err(e)), false) if offset == 0 => out.violation("C08|varstream|does-not-verify", format!("a well-formed variable-blocksize stream does not verify: {e}"), rp()),
+                    _ => {}
+                }
+                if broken {
+                    return;
+                }
+                if rest != 0 {
+                    out.violation("C08|varstream|unconsumed", format!("{rest} bytes left"), rp());
+                }
+                check_bits(ctx, "Stream(parsed,variable)", &s, out, &rp);
+                for i in 0..s.frame_count() {
+                    if let Some(f) = s.frame(i) {
+                        check_bits(ctx, "Frame(parsed,variable)", f, out, &rp);
+                        check_bits(ctx, "FrameHeader(parsed,variable)", f.header(), out, &rp);
+                    }
+                }
+                match enc::to_bytes(&s) {
+                    Ok(b2) if b2 == bytes => {}
+                    Ok(b2) => out.violation("C08|varstream|reserialisation-differs", format!("{} bytes written for a stream parsed from {} bytes (first difference at {:?})", b2.len(), bytes.len(), b2.iter().zip(bytes.iter()).position(|(a, b)| a != b)), rp()),
+                    Err(e) => out.violation("C08|varstream|write-failed", format!("{e:?}").chars().take(200).collect::<String>(), rp()),
+                }
+            }
+            Ok(None) => out.count("variable_streams_rejected_by_the_parser"),
+            Err(p) => out.violation(format!("C08|parser-panic|{}", p.site()), p.short(), rp()),
+        }
+    });
     // (e) metadata blocks
     run_cases(ctx, "metadata", 300, &mut out, |idx, out| {
         let mut rng = Rng::for_case(ctx.seed, "C08.metadata", idx);
